@@ -156,6 +156,9 @@ type ovState struct {
 // bound (sum of the version counts, <= 12 per package) for every generated universe.
 const patchBudget = 120
 
+// resolveBudget bounds the Root() reads (two per resolution) of one traced patchVulns run.
+const resolveBudget = 1000
+
 type hypCount struct{ checked, failed int }
 
 var hypResolver, hypOnePerPkg, hypFirstComp hypCount
@@ -166,6 +169,7 @@ func tracePatchVulns(cl resolve.Client, vm localMatcher, m0 guidedremediation.Ve
 	vulnIDs []string, ro *options.RemediationOptions) (iters [][]resolve.RequirementVersion, outcome string, out *guidedremediation.VerifC11Resolved) {
 	tm, tr := guidedremediation.VerifC11TraceManifest(m0)
 	tr.MaxPatches = patchBudget
+	tr.MaxResolves = resolveBudget
 	rs := &guidedremediation.VerifC11Resolved{Manifest: tm, ResolvedGraph: res0.ResolvedGraph}
 	var err error
 	oc, _ := guarded(callLimit, func() {
